@@ -701,6 +701,11 @@ class Ctx:
             return self.exit
         os.makedirs(os.path.join(VERIF, 'evidence'), exist_ok=True)
         path = os.path.join(VERIF, 'evidence', '%s.json' % self.pid)
+        if REPO != '/repo':
+            # development run against a scratch worktree (VERIF_REPO): the
+            # committed evidence describes runs against /repo only
+            os.makedirs(os.path.join(VERIF, 'replays'), exist_ok=True)
+            path = os.path.join(VERIF, 'replays', 'evidence-%s-scratch.json' % self.pid)
         tmp = path + '.tmp%d' % os.getpid()
         with open(tmp, 'w') as f:
             json.dump(ev, f, indent=1, sort_keys=True, default=str)
